@@ -123,6 +123,7 @@ type vRouter struct {
 	own *env.Own
 
 	closedOnce bool
+	closers    []func() // client transports to shut when the router is closed
 }
 
 // vNewRouter builds the real router from cfg via run(); every upstream named in tags is created by the
@@ -150,12 +151,25 @@ func vNewRouter(cfg *Config, tags ...string) (*vRouter, error) {
 // Close shuts the router down and lets background goroutines that poll once a second (otter's
 // cleanup loop) observe it, so that the bubble can end.
 func (v *vRouter) Close() {
-	v.r.close(nil)
-	if v.r.cache != nil && v.r.cache.memory != nil && !v.closedOnce {
-		v.closedOnce = true
-		time.Sleep(1500 * time.Millisecond)
-		synctest.Wait()
+	if v.closedOnce {
+		return
 	}
+	v.closedOnce = true
+	for _, f := range v.closers {
+		f()
+	}
+	for _, u := range v.ups {
+		for _, q := range u.Pending() {
+			q.Fail()
+		}
+		u.mu.Lock()
+		u.Auto = func(*upQuery) *upResult { return &upResult{err: errScripted} }
+		u.mu.Unlock()
+	}
+	synctest.Wait()
+	v.r.close(nil)
+	time.Sleep(7 * time.Second) // request deadlines, otter's 1 s cleanup poll
+	synctest.Wait()
 }
 
 // vTmpFile writes a file under a per-process temp dir (domain lists, ip markers).
@@ -215,6 +229,7 @@ func (v *vRouter) newTCPServer(maxConcurrent int32, idle time.Duration) *tcpServ
 func (v *vRouter) tcpClient(s *tcpServer, remote, local netip.AddrPort) *streamClient {
 	impl, _ := env.Pipe(zvTCPAddr(local), zvTCPAddr(remote))
 	c := &streamClient{impl: impl}
+	v.closers = append(v.closers, func() { impl.PeerFIN() })
 	go func() { // as tcpServer.run does
 		s.handleConn(impl)
 		impl.Close()
